@@ -1390,3 +1390,21 @@ Proof.
       destruct op, v; try apply pure_ret; pfail.
     + apply pure_bind; [apply (evals_pure _ IH); exact H|]. intros vs. apply pure_ret.
 Qed.
+
+(* ------------------------------------------------------------------------------------ *)
+(* K. plans that keep the declaration of a never-read local                               *)
+
+Theorem plan_ok2_sound_lemma prog ss fs eps fuel o e o' e' :
+  v_checked (w_main (plan_ok2 prog ss fs)) = true ->
+  w_checked_aug (plan_ok2 prog ss fs) = true ->
+  run_impl (Some (v_residual (w_main (plan_ok2 prog ss fs)))) eps fuel prog = (o, e) ->
+  tol_ending e = false ->
+  run_impl (Some (ss, fs)) eps fuel prog = (o', e') ->
+  tol_ending e' = false ->
+  (o', e') = (o, e).
+Proof.
+  unfold plan_ok2. cbv zeta. cbn [w_main w_checked_aug]. intros Hm Ha Er Tr Ep Tp.
+  pose proof (plan_ok_sound_lemma _ _ _ _ _ _ _ Hm Er Tr) as H1.
+  pose proof (prune_residual_sound_lemma _ prog eps fuel o' e' Ha Ep (fun _ => Tp)) as H2.
+  cbn [c_p1] in H2. rewrite H1 in H2. symmetry. exact H2.
+Qed.
